@@ -21,7 +21,7 @@ BASE = dict(capital=False, splits=True, n_sec=(1, 3), dividends=True)
 def plan(tier, seed):
     n = 60 if tier == "quick" else 2400
     shards = [{"kind": "lib", "seed": seed, "shard": i, "n": 300} for i in range(n)]
-    k = 16 if tier == "quick" else 200
+    k = 32 if tier == "quick" else 200
     shards += [{"kind": "cli", "seed": seed, "shard": i, "n": 24} for i in range(k)]
     shards += [{"kind": "mcp", "seed": seed, "shard": i, "n": 40} for i in range(2 if tier == "quick" else 40)]
     return shards
